@@ -1,8 +1,178 @@
 import MidnightZK.Model.Common
-/-! Line-protocol handler of property C11 (stub: answers `unimplemented`). -/
-namespace MidnightZK.C11.Driver
+import MidnightZK.Model.C11.Field
+import MidnightZK.Model.C11.Params
+import MidnightZK.Model.C11.Weierstrass
+import MidnightZK.Model.C11.Edwards
+import MidnightZK.Model.C11.Jubjub
+/-!
+Line-protocol handler of property C11.
 
-def answer (_line : String) : String := "unimplemented"
+Request: `<curve> <op>[:<variant>] <args…>`; the variant tag names the implementation path the
+harness took (operator overload, in-place form, subgroup newtype, …) and is ignored by the model:
+all variants of one operation must give the same answer.
+Tokens: field element `0x…` (`0x…~0x…` for a quadratic extension element `c0~c1`), affine point
+`x/y` or `inf`, coordinate tuples `X/Y/Z[/…]`, byte strings as hex in array order, scalars `0x…`.
+-/
+namespace MidnightZK.C11.Driver
+open MidnightZK MidnightZK.C11
+
+section generic
+variable {F : Type} [CoordField F]
+
+def pf (s : String) : Option F := CoordField.parse s
+def ff (x : F) : String := CoordField.fmt x
+
+def parseTuple (s : String) : Option (List F) := (s.splitOn "/").mapM pf
+def fmtTuple (l : List F) : String := "/".intercalate (l.map ff)
+
+def parsePair (s : String) : Option (F × F) :=
+  match parseTuple (F := F) s with
+  | some [a, b] => some (a, b)
+  | _ => none
+
+def fmtPair (p : F × F) : String := ff p.1 ++ "/" ++ ff p.2
+
+def parseW (s : String) : Option (WPoint F) :=
+  if s = "inf" then some none else (parsePair s).map some
+
+def fmtW : WPoint F → String
+  | none => "inf"
+  | some p => fmtPair p
+
+def fmtOpt {α : Type} (f : α → String) : Option α → String
+  | none => "none"
+  | some a => f a
+
+end generic
+
+def hexByte (b : Nat) : String := String.ofList [hexDigit (b / 16), hexDigit (b % 16)]
+/-- Bytes (array order) to hex. -/
+def bytesHex (l : List Nat) : String := String.join (l.map hexByte)
+/-- Hex string to bytes. -/
+def hexBytes? (s : String) : Option (List Nat) :=
+  let cs := s.toList
+  if cs.length % 2 ≠ 0 then none else
+  let rec go : List Char → Option (List Nat)
+    | a :: b :: t => do
+      let v ← parseHex? (String.ofList [a, b])
+      let r ← go t
+      pure (v :: r)
+    | [] => some []
+    | _ => none
+  go cs
+
+def beBytesToNat (l : List Nat) : Nat := l.foldl (fun acc b => acc * 256 + b) 0
+def natToBeBytes (n v : Nat) : List Nat := (natToLeBytes n v).reverse
+
+/-! ### Jubjub -/
+namespace JJ
+open Jubjub Params
+
+abbrev Fq := Fp blsR
+def d : Fq := ⟨jjD⟩
+def d2 : Fq := ⟨jjD2⟩
+def aM1 : Fq := -(1 : Fq)
+
+def parseExt (s : String) : Option (Ext Fq) :=
+  match parseTuple (F := Fq) s with
+  | some [u, v, z, t1, t2] => some ⟨u, v, z, t1, t2⟩
+  | _ => none
+def fmtExt (p : Ext Fq) : String := fmtTuple [p.u, p.v, p.z, p.t1, p.t2]
+
+/-- raw result followed by the affine-law result computed from the affine operands. -/
+def both (raw : Ext Fq) (spec : Fq × Fq) : String := fmtExt raw ++ " " ++ fmtPair spec
+
+def law (p q : Fq × Fq) : Fq × Fq := eAdd aM1 d p q
+
+def answer (op : String) (args : List String) : String :=
+  match op, args with
+  | "gen", [] => fmtPair ((⟨jjGenU⟩, ⟨jjGenV⟩) : Fq × Fq)
+  | "ident", [] => fmtExt Ext.identity
+  | "of_affine", [a] => match parsePair (F := Fq) a with
+    | some a => fmtExt (ofAffine a) | none => "bad-op"
+  | "add_ee", [a, b] => match parseExt a, parseExt b with
+    | some p, some q => both (p.add d2 q) (law p.toAffine q.toAffine) | _, _ => "bad-op"
+  | "sub_ee", [a, b] => match parseExt a, parseExt b with
+    | some p, some q => both (p.sub d2 q) (law p.toAffine (eNeg q.toAffine)) | _, _ => "bad-op"
+  | "add_ea", [a, b] => match parseExt a, parsePair (F := Fq) b with
+    | some p, some q => both (addANiels p (affToNiels d2 q)) (law p.toAffine q) | _, _ => "bad-op"
+  | "sub_ea", [a, b] => match parseExt a, parsePair (F := Fq) b with
+    | some p, some q => both (subANiels p (affToNiels d2 q)) (law p.toAffine (eNeg q)) | _, _ => "bad-op"
+  | "add_aa", [a, b] => match parsePair (F := Fq) a, parsePair (F := Fq) b with
+    -- `JubjubExtended::from(*other) + self`
+    | some p, some q => both (addANiels (ofAffine q) (affToNiels d2 p)) (law p q) | _, _ => "bad-op"
+  | "sub_aa", [a, b] => match parsePair (F := Fq) a, parsePair (F := Fq) b with
+    -- `-JubjubExtended::from(*other) + self`
+    | some p, some q => both (addANiels (ofAffine q).neg (affToNiels d2 p)) (law p (eNeg q)) | _, _ => "bad-op"
+  | "dbl", [a] => match parseExt a with
+    | some p => both p.double (law p.toAffine p.toAffine) | none => "bad-op"
+  | "neg", [a] => match parseExt a with
+    | some p => both p.neg (eNeg p.toAffine) | none => "bad-op"
+  | "neg_a", [a] => match parsePair (F := Fq) a with
+    | some p => fmtPair (eNeg p) | none => "bad-op"
+  | "cof", [a] => match parseExt a with
+    | some p => both p.mulByCofactor (eMul aM1 d 8 p.toAffine) | none => "bad-op"
+  | "niels_e", [a] => match parseExt a with
+    | some p => let n := p.toNiels d2; fmtTuple [n.vpu, n.vmu, n.z, n.t2d] | none => "bad-op"
+  | "niels_a", [a] => match parsePair (F := Fq) a with
+    | some p => let n := affToNiels d2 p; fmtTuple [n.vpu, n.vmu, n.t2d] | none => "bad-op"
+  | "mul_e", [a, k] => match parseExt a, parseNat? k with
+    | some p, some k => both (p.multiply d2 k) (eMul aM1 d (k % 2 ^ 252) p.toAffine) | _, _ => "bad-op"
+  | "mul_a", [a, k] => match parsePair (F := Fq) a, parseNat? k with
+    | some p, some k => both ((affToNiels d2 p).multiply k) (eMul aM1 d (k % 2 ^ 252) p) | _, _ => "bad-op"
+  | "isid", [a] => match parseExt a with
+    | some p => fmtBool p.isIdentity | none => "bad-op"
+  | "small", [a] => match parseExt a with
+    | some p => fmtBool p.isSmallOrder | none => "bad-op"
+  | "tf", [a] => match parseExt a with
+    -- torsion-free by the code's formula, and by the affine law: `r·P = (0, 1)`
+    | some p => fmtBool (p.isTorsionFree d2 jjR) ++ " " ++
+        fmtBool (decide (eMul aM1 d jjR p.toAffine = eZero)) | none => "bad-op"
+  | "prime", [a] => match parseExt a with
+    | some p => fmtBool (p.isPrimeOrder d2 jjR) | none => "bad-op"
+  | "eq", [a, b] => match parseExt a, parseExt b with
+    | some p, some q => fmtBool (p.ctEq q) ++ " " ++ fmtBool (decide (p.toAffine = q.toAffine))
+    | _, _ => "bad-op"
+  | "aff", [a] => match parseExt a with
+    | some p => fmtPair p.toAffine | none => "bad-op"
+  | "oncurve", [a] => match parsePair (F := Fq) a with
+    | some p => fmtBool (eOnCurve aM1 d p) | none => "bad-op"
+  | "enc", [a] => match parsePair (F := Fq) a with
+    | some p => bytesHex (natToLeBytes 32 (toBytesNat p)) | none => "bad-op"
+  | "dec", [h] => match hexBytes? h with
+    | some bs => if bs.length ≠ 32 then "bad-op" else
+      fmtOpt fmtPair (fromBytesInner d true (leBytesToNat bs))
+    | none => "bad-op"
+  | "dec_pre216", [h] => match hexBytes? h with
+    | some bs => if bs.length ≠ 32 then "bad-op" else
+      fmtOpt fmtPair (fromBytesInner d false (leBytesToNat bs))
+    | none => "bad-op"
+  | "dec_sub", [h] => match hexBytes? h with
+    -- `JubjubSubgroup::from_bytes`: decode, then `is_torsion_free`
+    | some bs => if bs.length ≠ 32 then "bad-op" else
+      match fromBytesInner d true (leBytesToNat bs) with
+      | some p => if (ofAffine p).isTorsionFree d2 jjR then fmtPair p else "none"
+      | none => "none"
+    | none => "bad-op"
+  | "sum", l => match l.mapM parseExt with
+    | some ps =>
+      both (ps.foldl (fun acc p => acc.add d2 p) Ext.identity) (eSum aM1 d (ps.map Ext.toAffine))
+    | none => "bad-op"
+  | "bn", l => match l.mapM parseExt with
+    | some ps => " ".intercalate ((batchNormalize ps).map fmtPair)
+    | none => "bad-op"
+  | _, _ => "bad-op"
+
+end JJ
+
+def answer (line : String) : String :=
+  match words line with
+  | curve :: op :: args =>
+    let op := (op.splitOn ":").headD ""
+    match curve with
+    | "jj" => JJ.answer op args
+    | _ => "bad-op"
+  | _ => "bad-op"
 
 end MidnightZK.C11.Driver
 
